@@ -692,22 +692,27 @@ Proof.
 Qed.
 
 Lemma verdict_to_rixn re cfg http q d i tb :
-  re_alternation re -> Forall methods_ok (i_perms i) ->
+  re_alternation re -> Forall methods_ok (i_perms i) -> Forall (fun p => inv_ok p q) (i_perms i) ->
   verdict re q d (to_rixn cfg http i tb) = decide re d http i q.
 Proof.
-  intros Hre Hm. unfold to_rixn, decide, verdict.
+  intros Hre Hm Hi. unfold to_rixn, decide, verdict.
   destruct (i_perms i) as [|p ps] eqn:E; cbn [r_act].
   - destruct (i_allow i); reflexivity.
   - destruct http; cbn [r_act r_perms]; [|reflexivity].
     rewrite find_map. cbn [rp_perm].
     rewrite (find_ext_in _ (fun x => ixn_perm_matches re x q)).
     + destruct (find _ (p :: ps)); reflexivity.
-    + intros x Hx. apply convert_permission_sem; [exact Hre|].
-      rewrite Forall_forall in Hm. apply Hm; exact Hx.
+    + intros x Hx. rewrite Forall_forall in Hm, Hi.
+      apply convert_permission_sem; [exact Hre|apply Hm; exact Hx|apply Hi; exact Hx].
 Qed.
+
+(* the request carries every header an inverted value matcher of some permission asks about *)
+Definition inverted_headers_present (ixns : list intention) (q : request) : Prop :=
+  forall i, In i ixns -> Forall (fun p => inv_ok p q) (i_perms i).
 
 Lemma to_rixns_find re cfg http xf c q d D :
   re_alternation re -> (forall i, In i D -> Forall methods_ok (i_perms i)) ->
+  inverted_headers_present D q ->
   match find (fun r => src_matches cfg xf (r_src r) c) (to_rixns cfg http D) with
   | Some r => verdict re q d r
   | None => d
@@ -717,14 +722,14 @@ Lemma to_rixns_find re cfg http xf c q d D :
     | None => d
     end.
 Proof.
-  intros Hre. induction D as [|i D IH]; intros Hm; [reflexivity|].
-  assert (IH' := IH (fun j Hj => Hm j (or_intror Hj))).
+  intros Hre. induction D as [|i D IH]; intros Hm Hv; [reflexivity|].
+  assert (IH' := IH (fun j Hj => Hm j (or_intror Hj)) (fun j Hj => Hv j (or_intror Hj))).
   cbn [to_rixns find]. unfold ixn_matches at 1. unfold resolve.
   destruct (negb (i_src_peer i =? "") && _) eqn:E.
   - exact IH'.
   - cbn [find]. rewrite r_src_to_rixn.
     destruct (src_matches cfg xf (src_of cfg i (lookup_bundle (c_bundles cfg) (i_src_peer i))) c).
-    + apply verdict_to_rixn; [exact Hre|apply Hm; left; reflexivity].
+    + apply verdict_to_rixn; [exact Hre|apply Hm; left; reflexivity|apply Hv; left; reflexivity].
     + exact IH'.
 Qed.
 
@@ -818,14 +823,14 @@ Proof. intros H. unfold ixn_matches. rewrite (resolve_key cfg i j H). reflexivit
 
 (* ------------------------------------------------------------------ the translation as a whole *)
 
-Lemma translate_sem re cfg ixns d http c q :
-  eval_rbac re (translate cfg ixns d http) c q
+Lemma translate_sem rep re cfg ixns d http c q :
+  eval_rbac re (translate_gen rep cfg ixns d http) c q
   = xorb d (existsb (rmatch re cfg (expect_xfcc cfg ixns http) c q)
-                    (remove_intention_precedence (action_of_bool d) (to_intermediate cfg http ixns))).
+                    (remove_intention_precedence (action_of_bool d) (to_intermediate_gen rep cfg http ixns))).
 Proof.
-  unfold translate.
+  unfold translate_gen.
   set (xf := expect_xfcc cfg ixns http).
-  set (R3 := remove_intention_precedence (action_of_bool d) (to_intermediate cfg http ixns)).
+  set (R3 := remove_intention_precedence (action_of_bool d) (to_intermediate_gen rep cfg http ixns)).
   pose proof (build_sem re cfg xf c q R3 0) as B.
   destruct (build_policies cfg xf 0 R3) as [l7 l4]. cbn [fst snd] in B.
   unfold eval_rbac. cbn [rb_allow rb_policies]. rewrite existsb_app, <- B.
@@ -894,6 +899,78 @@ Proof.
   - exact Hr.
 Qed.
 
+(* ------------------------------------------------------------------ the proposed repair: drop shadowed intentions *)
+
+Lemma In_drop_shadowed kept l r : In r (drop_shadowed kept l) -> In r l.
+Proof.
+  revert kept; induction l as [|x l IH]; intros kept; cbn; [tauto|].
+  destruct (existsb _ kept); cbn; intros H; [right; eapply IH; exact H|].
+  destruct H as [<-|H]; [left; reflexivity|right; eapply IH; exact H].
+Qed.
+
+Lemma drop_shadowed_Forall (P : rixn -> Prop) kept l : Forall P l -> Forall P (drop_shadowed kept l).
+Proof.
+  intros H. apply Forall_forall. intros r Hr. rewrite Forall_forall in H. apply H.
+  eapply In_drop_shadowed; exact Hr.
+Qed.
+
+Lemma drop_shadowed_FOP (R : rixn -> rixn -> Prop) kept l :
+  ForallOrdPairs R l -> ForallOrdPairs R (drop_shadowed kept l).
+Proof.
+  revert kept; induction l as [|x l IH]; intros kept F; cbn; [constructor|].
+  inversion F as [|? ? Hx F']; subst.
+  destruct (existsb _ kept); [apply IH; exact F'|].
+  constructor; [|apply IH; exact F'].
+  apply Forall_forall. intros y Hy. apply In_drop_shadowed in Hy. rewrite Forall_forall in Hx. apply Hx; exact Hy.
+Qed.
+
+(* no kept intention is strictly contained in an earlier kept one (nor in the initial [kept]) *)
+Lemma drop_shadowed_unshadowed kept l :
+  ForallOrdPairs (fun x y => ixn_source_matches (r_src y) (r_src x) = false) (drop_shadowed kept l)
+  /\ forall y, In y (drop_shadowed kept l) -> forall p, In p kept -> ixn_source_matches (r_src y) p = false.
+Proof.
+  revert kept; induction l as [|x l IH]; intros kept; cbn; [split; [constructor|intros y []]|].
+  destruct (existsb (fun p => ixn_source_matches (r_src x) p) kept) eqn:E; [apply IH|].
+  destruct (IH (kept ++ [r_src x])) as [F Hk]. split.
+  - constructor; [|exact F]. apply Forall_forall. intros y Hy.
+    apply (Hk y Hy). apply in_or_app. right; left; reflexivity.
+  - intros y [<-|Hy] p Hp.
+    + destruct (ixn_source_matches (r_src x) p) eqn:M; [|reflexivity].
+      assert (existsb (fun p0 => ixn_source_matches (r_src x) p0) kept = true) by (apply existsb_exists; eauto).
+      congruence.
+    + apply (Hk y Hy). apply in_or_app. left; exact Hp.
+Qed.
+
+(* a shadowed intention never is the first match: dropping it does not change the reference *)
+Lemma find_drop_shadowed {A} (m : rsvc -> bool) (v : rixn -> A) (dflt : A) kept l :
+  (forall a p, In a (map r_src l) -> In p (kept ++ map r_src l) ->
+               ixn_source_matches a p = true -> m a = true -> m p = true) ->
+  (forall p, In p kept -> m p = false) ->
+  match find (fun r => m (r_src r)) (drop_shadowed kept l) with Some r => v r | None => dflt end
+  = match find (fun r => m (r_src r)) l with Some r => v r | None => dflt end.
+Proof.
+  revert kept; induction l as [|x l IH]; intros kept Hsub Hk; [reflexivity|].
+  cbn [drop_shadowed find].
+  assert (Hsub' : forall kept', (forall p, In p kept' -> In p (kept ++ [r_src x])) ->
+            forall a p, In a (map r_src l) -> In p (kept' ++ map r_src l) ->
+                        ixn_source_matches a p = true -> m a = true -> m p = true).
+  { intros kept' Hin a p Ha Hp. apply Hsub; [right; exact Ha|].
+    apply in_app_or in Hp as [Hp|Hp].
+    - apply Hin in Hp. apply in_app_or in Hp as [Hp|[<-|[]]]; apply in_or_app; [left; exact Hp|right; left; reflexivity].
+    - apply in_or_app; right; right; exact Hp. }
+  destruct (existsb (fun p => ixn_source_matches (r_src x) p) kept) eqn:E.
+  - apply existsb_exists in E as (p & Hp & Mp).
+    assert (Mx : m (r_src x) = false).
+    { destruct (m (r_src x)) eqn:Mx; [|reflexivity].
+      pose proof (Hsub (r_src x) p (or_introl eq_refl) (in_or_app _ _ _ (or_introl Hp)) Mp Mx) as Hmp.
+      rewrite (Hk p Hp) in Hmp. discriminate. }
+    rewrite Mx. apply IH; [|exact Hk].
+    apply Hsub'. intros q Hq. apply in_or_app; left; exact Hq.
+  - cbn [find]. destruct (m (r_src x)) eqn:Mx; [reflexivity|].
+    apply IH; [apply Hsub'; auto|].
+    intros p Hp. apply in_app_or in Hp as [Hp|[<-|[]]]; [apply Hk; exact Hp|exact Mx].
+Qed.
+
 Section Main.
   Variable re : string -> string -> bool.
   Hypothesis re_methods : re_alternation re.
@@ -901,10 +978,13 @@ Section Main.
   Hypothesis Hwf : well_formed cfg ixns.
   Hypothesis Hlit : partitions_literal cfg ixns.
   Hypothesis Hhost : hosts_authentic cfg ixns c.
+  Hypothesis Hinv : inverted_headers_present ixns q.
 
   Let xf := expect_xfcc cfg ixns http.
   Let D := remove_same_source (sort_ixns ixns).
   Let L := to_rixns cfg http D.
+  Let m (s : rsvc) : bool := src_matches cfg xf s c.
+  Let OK := srcs_ok_sources cfg ixns c Hwf Hlit Hhost.
 
   Lemma D_sub i : In i D -> In i ixns.
   Proof.
@@ -917,10 +997,13 @@ Section Main.
     intros H. apply to_rixns_src in H as (i & Hi & Hr). apply In_sources. exists i. split; [apply D_sub|]; assumption.
   Qed.
 
+  Lemma L_fresh : Forall fresh_rixn L.
+  Proof. apply to_rixns_fresh. Qed.
+
   (* the precedence side, brought to the shape of the core lemmas *)
   Lemma reference_as_find :
     intention_allows re cfg ixns d http c q
-    = match find (fun r => src_matches cfg xf (r_src r) c) L with
+    = match find (fun r => m (r_src r)) L with
       | Some r => verdict re q d r
       | None => d
       end.
@@ -929,19 +1012,25 @@ Section Main.
     rewrite <- find_sorted_is_best.
     rewrite <- (find_remove_same_source (ixn_matches cfg xf c) (sort_ixns ixns))
       by (intros i j; apply ixn_matches_key).
-    fold D. unfold L. rewrite (to_rixns_find re cfg http xf c q d D re_methods); [reflexivity|].
-    intros i Hi. apply (proj1 Hwf). apply D_sub; exact Hi.
+    fold D. unfold L, m. rewrite (to_rixns_find re cfg http xf c q d D re_methods); [reflexivity| |].
+    - intros i Hi. apply (proj1 Hwf). apply D_sub; exact Hi.
+    - intros i Hi. apply Hinv. apply D_sub; exact Hi.
   Qed.
 
-  Lemma rbac_as_contrib :
-    eval_rbac re (translate cfg ixns d http) c q
-    = xorb d (existsb (contrib re cfg xf c q d) (mark_sources_spec d [] L)).
+  (* the RBAC side, for any prepared list [L0] taken from [L] *)
+  Lemma rbac_as_contrib rep :
+    eval_rbac re (translate_gen rep cfg ixns d http) c q
+    = xorb d (existsb (contrib re cfg xf c q d)
+                      (mark_sources_spec d [] (if rep then drop_shadowed [] L else L))).
   Proof.
-    rewrite translate_sem. fold xf. unfold to_intermediate. fold D. fold L. f_equal.
-    rewrite (rip_sem re cfg xf c q d (sources cfg ixns)
-                     (srcs_ok_sources cfg ixns c Hwf Hlit Hhost) (proj1 Hhost) L
-                     (to_rixns_fresh cfg http D) L_sources).
-    rewrite (mark_sources_is_spec d L (to_rixns_fresh cfg http D)). reflexivity.
+    rewrite translate_sem. fold xf. unfold to_intermediate_gen, to_intermediate. fold D. fold L. f_equal.
+    set (L0 := if rep then drop_shadowed [] L else L).
+    assert (F0 : Forall fresh_rixn L0) by (unfold L0; destruct rep; [apply drop_shadowed_Forall|]; apply L_fresh).
+    assert (S0 : forall r, In r L0 -> In (r_src r) (sources cfg ixns)).
+    { unfold L0. destruct rep; intros r Hr; apply L_sources; [eapply In_drop_shadowed|]; exact Hr. }
+    replace (if rep then drop_shadowed [] L else L) with L0 by reflexivity.
+    rewrite (rip_sem re cfg xf c q d (sources cfg ixns) OK (proj1 Hhost) L0 F0 S0).
+    rewrite (mark_sources_is_spec d L0 F0). reflexivity.
   Qed.
 
   Lemma xor_back (o : option rixn) :
@@ -952,9 +1041,13 @@ Section Main.
     rewrite <- xorb_assoc, xorb_nilpotent, xorb_false_l. reflexivity.
   Qed.
 
-  Lemma L_laminar : source_monotone cfg ixns -> laminar cfg xf c L.
+  (* in the prepared list: precedence order, distinct source keys *)
+  Lemma L_ordered :
+    ForallOrdPairs (fun x y => exists i j, In i ixns /\ In j ixns /\ ixn_less j i = false /\ src_key i <> src_key j
+                                           /\ resolve cfg i = Some (r_src x) /\ resolve cfg j = Some (r_src y)
+                                           /\ skey (r_src x) = src_key i /\ skey (r_src y) = src_key j) L.
   Proof.
-    intros Hmono. unfold laminar, L.
+    unfold L.
     apply (FOP_to_rixns cfg http (fun i j => ixn_less j i = false /\ src_key i <> src_key j)).
     - unfold D. rewrite remove_same_source_eq.
       assert (F1 : ForallOrdPairs (fun i j => ixn_less j i = false) (dedupe [] (sort_ixns ixns)))
@@ -963,22 +1056,28 @@ Section Main.
       clear -F1 F2. induction F1 as [|i l Hi F1 IH]; [constructor|].
       inversion F2 as [|? ? Hk F2']; subst. constructor; [|apply IH; exact F2'].
       rewrite Forall_forall in *. intros x Hx. split; auto.
-    - intros i j Hi Hj [Hless Hkey] x y Ex Ey Rx Ry Mx My.
-      pose proof (srcs_ok_sources cfg ixns c Hwf Hlit Hhost) as OK.
-      assert (Sx : In (r_src x) (sources cfg ixns)) by (apply In_sources; exists i; split; [apply D_sub|]; assumption).
-      assert (Sy : In (r_src y) (sources cfg ixns)) by (apply In_sources; exists j; split; [apply D_sub|]; assumption).
-      destruct (trichotomy cfg c xf _ _ _ OK Sx Sy Mx My) as [K|[T|T]].
-      + exfalso. apply Hkey. rewrite Ex, Ey in K. exact K.
-      + exact T.
-      + exfalso. rewrite (Hmono j i _ _ (D_sub j Hj) (D_sub i Hi) Ry Rx T) in Hless. discriminate.
+    - intros i j Hi Hj [Hless Hkey] x y Ex Ey Rx Ry.
+      exists i, j. repeat split; auto using D_sub; [rewrite Ex|rewrite Ey]; reflexivity.
+  Qed.
+
+  Lemma L_laminar : source_monotone cfg ixns -> laminar cfg xf c L.
+  Proof.
+    intros Hmono. unfold laminar. eapply FOP_impl; [|exact L_ordered].
+    intros x y Hx Hy (i & j & Hi & Hj & Hless & Hkey & Rx & Ry & Kx & Ky) Mx My.
+    assert (Sx : In (r_src x) (sources cfg ixns)) by (apply L_sources; exact Hx).
+    assert (Sy : In (r_src y) (sources cfg ixns)) by (apply L_sources; exact Hy).
+    destruct (trichotomy cfg c xf _ _ _ OK Sx Sy Mx My) as [K|[T|T]].
+    - exfalso. apply Hkey. congruence.
+    - exact T.
+    - exfalso. rewrite (Hmono j i _ _ Hj Hi Ry Rx T) in Hless. discriminate.
   Qed.
 
   Theorem equiv_partial :
     source_monotone cfg ixns ->
     eval_rbac re (translate cfg ixns d http) c q = intention_allows re cfg ixns d http c q.
   Proof.
-    intros Hmono. rewrite rbac_as_contrib, reference_as_find.
-    rewrite (core_main re cfg xf c q d L [] (to_rixns_fresh cfg http D)); [apply xor_back| |apply L_laminar; exact Hmono].
+    intros Hmono. unfold translate. rewrite (rbac_as_contrib false), reference_as_find.
+    rewrite (core_main re cfg xf c q d L [] L_fresh); [apply xor_back| |apply L_laminar; exact Hmono].
     intros s [].
   Qed.
 
@@ -987,11 +1086,45 @@ Section Main.
     intention_allows re cfg ixns d http c q = negb d ->
     eval_rbac re (translate cfg ixns d http) c q = negb d.
   Proof.
-    rewrite rbac_as_contrib, reference_as_find. intros H.
-    rewrite (core_lower re cfg xf c q d L [] (to_rixns_fresh cfg http D)); [destruct d; reflexivity|intros s []|].
-    rewrite <- xor_back in H. destruct (find _ L) as [r|].
+    unfold translate. rewrite (rbac_as_contrib false), reference_as_find. intros H.
+    rewrite (core_lower re cfg xf c q d L [] L_fresh); [destruct d; reflexivity|intros s []|].
+    rewrite <- xor_back in H. fold m. destruct (find _ L) as [r|].
     - destruct (vnd re q d r); [reflexivity|]. rewrite xorb_false_r in H. destruct d; discriminate.
     - rewrite xorb_false_r in H. destruct d; discriminate.
+  Qed.
+
+  (* the repaired translator needs no hypothesis on the precedence order *)
+  Lemma repaired_laminar : laminar cfg xf c (drop_shadowed [] L).
+  Proof.
+    unfold laminar.
+    pose proof (drop_shadowed_FOP _ [] L L_ordered) as F1.
+    destruct (drop_shadowed_unshadowed [] L) as [F2 _].
+    set (L' := drop_shadowed [] L) in *.
+    assert (Hin : forall r, In r L' -> In r L) by (intros r; apply In_drop_shadowed).
+    clearbody L'. induction F1 as [|x l Hx F1 IH]; [constructor|].
+    inversion F2 as [|? ? Hu F2']; subst. constructor; [|apply IH; [exact F2'|intros r Hr; apply Hin; right; exact Hr]].
+    apply Forall_forall. intros y Hy Mx My.
+    rewrite Forall_forall in Hx, Hu.
+    destruct (Hx y Hy) as (i & j & Hi & Hj & Hless & Hkey & Rx & Ry & Kx & Ky).
+    assert (Sx : In (r_src x) (sources cfg ixns)) by (apply L_sources, Hin; left; reflexivity).
+    assert (Sy : In (r_src y) (sources cfg ixns)) by (apply L_sources, Hin; right; exact Hy).
+    destruct (trichotomy cfg c xf _ _ _ OK Sx Sy Mx My) as [K|[T|T]].
+    - exfalso. apply Hkey. congruence.
+    - exact T.
+    - rewrite (Hu y Hy) in T. discriminate.
+  Qed.
+
+  Theorem equiv_repaired :
+    eval_rbac re (translate_repaired cfg ixns d http) c q = intention_allows re cfg ixns d http c q.
+  Proof.
+    unfold translate_repaired. rewrite (rbac_as_contrib true), reference_as_find.
+    rewrite (core_main re cfg xf c q d (drop_shadowed [] L) [] (drop_shadowed_Forall _ [] L L_fresh));
+      [|intros s []|apply repaired_laminar].
+    rewrite xor_back. fold m.
+    apply (find_drop_shadowed m (verdict re q d) d [] L); [|intros p []].
+    intros a p Ha Hp. cbn [app] in Hp.
+    apply in_map_iff in Ha as (ra & <- & Hra). apply in_map_iff in Hp as (rp & <- & Hrp).
+    apply src_matches_subset. apply (so_cons c _ OK); apply L_sources; assumption.
   Qed.
 End Main.
 
@@ -1166,3 +1299,87 @@ Proof.
     + intros i j Hi Hj.
       destruct Hi as [<-|[<-|[<-|[<-|[]]]]]; destruct Hj as [<-|[<-|[<-|[<-|[]]]]]; split; reflexivity.
 Qed.
+
+(* ------------------------------------------------------------------ additions after the audit *)
+
+(* lists without header matchers meet inverted_headers_present for every request *)
+Lemma no_headers_inverted_ok ixns q :
+  (forall i p h, In i ixns -> In p (i_perms i) -> ip_http p = Some h -> hp_header h = []) ->
+  inverted_headers_present ixns q.
+Proof.
+  intros H i Hi. apply Forall_forall. intros p Hp. unfold inv_ok.
+  destruct (ip_http p) as [h|] eqn:E; [|exact I]. rewrite (H i p h Hi Hp E). constructor.
+Qed.
+
+Lemma w_superset_inv q : inverted_headers_present w_superset q.
+Proof. intros i [<-|[<-|[]]]; constructor. Qed.
+Lemma w_regex_inv q : inverted_headers_present w_regex q.
+Proof. intros i [<-|[]]; constructor. Qed.
+Lemma ex_ixns_inv q : inverted_headers_present ex_ixns q.
+Proof.
+  intros i [<-|[<-|[<-|[<-|[]]]]]; cbn [i_perms]; repeat constructor.
+Qed.
+
+(* the proposed repair removes the superset defect on its witnesses *)
+Lemma superset_repaired re :
+  eval_rbac re (translate_repaired w_cfg w_superset false false) (w_conn "api") w_req = false
+  /\ eval_rbac re (translate_repaired w_cfg w_superset' true false) (w_conn "api") w_req = true.
+Proof. split; vm_compute; reflexivity. Qed.
+
+(* (new finding) an inverted value matcher and a request that LACKS the header: consul's
+   `x-internal` Exact "yes" Invert means "x-internal is not yes"; Envoy ignores a value matcher
+   on an absent header even when inverted, so the deny permission is bypassed. *)
+Definition w_inv_hdr : hdr_perm := HdrPerm "x-internal" false "yes" "" "" "" "" true false.
+Definition w_inv_ixns : list intention :=
+  [Ixn "" "" "default" "web" "" "default" "db" false
+       [IxnPerm false (Some (HttpPerm "" "" "" [w_inv_hdr] []));
+        IxnPerm true (Some (HttpPerm "" "/" "" [] []))] 9].
+Definition w_req_with : request := Req "/" [(":method", "GET"); ("x-internal", "no")].
+
+Lemma inverted_header_witness re :
+  eval_rbac re (translate w_cfg w_inv_ixns false true) (w_conn "web") w_req = true
+  /\ intention_allows re w_cfg w_inv_ixns false true (w_conn "web") w_req = false
+  /\ eval_rbac re (translate w_cfg w_inv_ixns false true) (w_conn "web") w_req_with = false
+  /\ intention_allows re w_cfg w_inv_ixns false true (w_conn "web") w_req_with = false.
+Proof. repeat split; vm_compute; reflexivity. Qed.
+
+Lemma inverted_header_witness_hyps :
+  well_formed w_cfg w_inv_ixns /\ partitions_literal w_cfg w_inv_ixns
+  /\ hosts_authentic w_cfg w_inv_ixns (w_conn "web") /\ source_monotone w_cfg w_inv_ixns
+  /\ ~ inverted_headers_present w_inv_ixns w_req /\ inverted_headers_present w_inv_ixns w_req_with.
+Proof.
+  split; [|split; [|split; [|split; [|split]]]].
+  - split; [|split].
+    + intros i [<-|[]]; cbn [i_perms]; repeat constructor.
+    + intros s Hs. cbn in Hs. destruct Hs as [<-|[]]; repeat split; cbn; try discriminate; reflexivity.
+    + intros a b Ha Hb Hp. exfalso. apply Hp.
+      cbn in Ha, Hb. destruct Ha as [<-|[]]; destruct Hb as [<-|[]]; reflexivity.
+  - intros s Hs. cbn in Hs. destruct Hs as [<-|[]]; reflexivity.
+  - split.
+    + apply w_host_ok. reflexivity.
+    + intros s Hs. cbn in Hs. destruct Hs as [<-|[]]; apply w_host_ok; reflexivity.
+  - intros i j a b [<-|[]] [<-|[]] [= <-] [= <-] H. vm_compute in H. discriminate.
+  - intros H. specialize (H _ (or_introl eq_refl)). cbn [i_perms] in H.
+    inversion H as [|? ? H1 _]; subst. unfold inv_ok in H1. cbn in H1.
+    inversion H1 as [|? ? H2 _]; subst. vm_compute in H2. discriminate.
+  - intros i [<-|[]]; cbn [i_perms]; repeat constructor.
+Qed.
+
+(* source_monotone with MIXED destinations: disjoint sources on an exact and on the wildcard destination *)
+Definition ex_mixed : list intention := [w_ixn "api" "db" true; w_ixn "web" "*" false].
+Lemma ex_mixed_monotone : source_monotone w_cfg ex_mixed
+  /\ exists i j, In i ex_mixed /\ In j ex_mixed /\ i_dst_name i <> i_dst_name j.
+Proof.
+  split.
+  - intros i j a b Hi Hj Ra Rb H.
+    destruct Hi as [<-|[<-|[]]]; destruct Hj as [<-|[<-|[]]];
+      injection Ra as <-; injection Rb as <-; vm_compute in H; discriminate.
+  - exists (w_ixn "api" "db" true), (w_ixn "web" "*" false). cbn. repeat split; auto. discriminate.
+Qed.
+
+(* hypotheses of src_matches_subset on a concrete pair *)
+Lemma ex_source_match_pair :
+  let a := RSvc "default" "default" "web" "" "" "test.consul" in
+  let b := RSvc "default" "default" "*" "" "" "test.consul" in
+  consistent a b /\ ixn_source_matches a b = true /\ src_matches w_cfg false a (w_conn "web") = true.
+Proof. cbn. repeat split; reflexivity. Qed.
